@@ -719,6 +719,8 @@ func init() {
 					// letters, digits and dots of the host escaped once or several times (the profiles parse hosts laxly and decode them
 					// repeatedly): the same host
 					{[]string{"www.example.com", "www.ex%61mple.com", "www.ex%2561mple.com", "w%2577w.example.c%25256fm", "www%252Eexample.com", "WWW.EX%2541MPLE.com"}},
+					{[]string{"my_site.example.com", "MY_SITE.EXAMPLE.COM", "My%5FSite.example.com", "my%255fsite.Example.COM", "MY%5fSITE.example.com"}},
+					{[]string{"a~b.example", "A~B.Example", "a%7Eb.EXAMPLE", "A%257eB.example"}},
 					{[]string{"192.168.0.1", "%3192.168.0.1", "%253192.168.0.1", "192.%2531%2536%2538.0.1", "192.16%252538.0.1", "192.168.0.%2531", "192.168%252E0.1"}},
 				}
 				rests := []string{"/a/b?k=v", "", ":80/", "/#"}
@@ -734,7 +736,7 @@ func init() {
 							continue
 						}
 						if diff := obsEq(first, o, urlFieldsOnly); diff != "" {
-							c.Report(Finding{Class: "violation", What: fmt.Sprintf("two spellings of a host dot canonicalize differently: %q -> %s but %q -> %s (%s)", "http://"+g.variants[0]+rest, first.String(), in, o.String(), diff),
+							c.Report(Finding{Class: "violation", What: fmt.Sprintf("two spellings of a host canonicalize differently: %q -> %s but %q -> %s (%s)", "http://"+g.variants[0]+rest, first.String(), in, o.String(), diff),
 								Case: Case{Kind: "cparse", Cfg: p.Desc, Input: in, Family: "host-dots", Index: i}, Host: first.Fields0(fHostname)})
 							break
 						}
